@@ -69,6 +69,30 @@ type TypeD struct {
 // Mixin is a "-|> App" line of an app body (records no location)
 type Mixin struct{ App string }
 
+// statements of a collector
+const (
+	cAction = iota // free text
+	cCall          // App <- Endpoint
+	cHTTP          // VERB /path/{x}
+)
+
+type CStmt struct {
+	Kind  int
+	App   string // cCall: target application; cHTTP: the verb
+	Text  string // action text / endpoint / path
+	Attrs []Attr // mandatory, non-empty
+}
+
+// Collector is ".. * <- *:" with its statements (none: "...")
+type Collector struct{ Stmts []CStmt }
+
+// Subscribe is "Pub -> Event [attributes]:" with its statements (none: "...")
+type Subscribe struct {
+	Pub, Event string
+	Attrs      []Attr
+	Stmts      []Stmt
+}
+
 const (
 	sText  = iota // free text action
 	sQText        // quoted text action
@@ -105,16 +129,16 @@ type EpD struct {
 	Attrs    []Attr
 	Annos    []Anno // annotations inside the body (before the statements)
 	Stmts    []Stmt
-	Shortcut bool // "Name: ..."
+	Shortcut bool    // "Name: ..."
 	Params   []Field // "(p <: int, q <: T0 [~x])"
 }
 
 type Method struct {
-	Verb  string
-	Query string // "" or "q=int"
-	Attrs []Attr
-	Annos []Anno
-	Stmts []Stmt
+	Verb   string
+	Query  string // "" or "q=int"
+	Attrs  []Attr
+	Annos  []Anno
+	Stmts  []Stmt
 	Params []Field
 }
 
@@ -358,6 +382,7 @@ type appPlan struct {
 	fieldAnno map[string]*[]string
 	epAnno    map[string]*[]string
 	likes     int
+	subs      map[string]bool // subscriptions declared so far (publisher|event)
 }
 
 func (g *gen) typeShare(p *appPlan, redeclare bool) TypeD {
@@ -508,12 +533,75 @@ func (g *gen) epShare(p *appPlan, apps []string, event bool) EpD {
 	return e
 }
 
+// someAttrs: a non-empty attribute list
+func (g *gen) someAttrs(max int) []Attr {
+	for i := 0; i < 4; i++ {
+		if as := g.attrs(max); len(as) > 0 {
+			return as
+		}
+	}
+	return []Attr{{Kind: 1, Name: g.id("m")}}
+}
+
+// collector: ".. * <- *:" with one to three statements, now and then "..."
+func (g *gen) collector(apps []string) Collector {
+	var c Collector
+	if g.r.Chance(1, 6) {
+		return c
+	}
+	for i, n := 0, 1+g.r.Intn(3); i < n; i++ {
+		cs := CStmt{Attrs: g.someAttrs(2)}
+		switch g.r.Intn(3) {
+		case 0:
+			cs.Kind, cs.Text = cAction, words[g.r.Intn(len(words))]
+		case 1:
+			// (an endpoint no call statement names: the attributes of a collector statement that matches a call - or an
+			// endpoint, for the action and HTTP forms - are COPIED onto it with their locations by the post-processing)
+			cs.Kind, cs.App, cs.Text = cCall, apps[g.r.Intn(len(apps))], fmt.Sprintf("C%d", g.r.Intn(4))
+		default:
+			cs.Kind, cs.App = cHTTP, verbs[g.r.Intn(len(verbs))]
+			cs.Text = []string{"/c0", "/c1/{id}", "/c0/{id}/items", "/c2/7"}[g.r.Intn(4)]
+		}
+		c.Stmts = append(c.Stmts, cs)
+	}
+	return c
+}
+
+// subscribe: a subscription to an event of another application or of an application that is declared nowhere. The
+// events subscribed to are never declared with "<->" here (an event declared after a subscription to it records no
+// location, a variant of the known event finding); a subscription is declared once per application outside the replacing stream
+func (g *gen) subscribe(p *appPlan, apps []string) (Subscribe, bool) {
+	pub := "Ext"
+	if g.r.Chance(2, 3) {
+		pub = apps[g.r.Intn(len(apps))]
+	}
+	if pub == p.name {
+		pub = "Ext"
+	}
+	s := Subscribe{Pub: pub, Event: fmt.Sprintf("Sv%d", g.r.Intn(3)), Attrs: g.attrs(3)}
+	k := s.Pub + "|" + s.Event
+	if p.subs[k] && !g.hostile {
+		return s, false
+	}
+	p.subs[k] = true
+	if !g.r.Chance(1, 5) {
+		g.noDoc = true
+		s.Stmts = g.stmts(1, 3, apps)
+		g.noDoc = false
+	}
+	return s, true
+}
+
 func (g *gen) rest(p *appPlan, apps []string, depth int, prefix string) Rest {
 	seg := fmt.Sprintf("/p%d", g.r.Intn(3))
 	r := Rest{Path: seg, Name: seg}
-	if g.r.Chance(1, 4) {
+	if g.r.Chance(1, 3) || g.hostile && g.r.Chance(1, 3) {
 		v := g.id("id")
-		r.Path = seg + "/{" + v + " <: int}"
+		if g.hostile {
+			v = "id" // a method declared again under the same typed path: its URL parameters are replaced
+		}
+		ty := []string{"int", "int", "string", "bool", "T0"}[g.r.Intn(5)]
+		r.Path = seg + "/{" + v + " <: " + ty + "}"
 		r.Name = seg + "/{" + v + "}"
 	}
 	// no array values on REST paths: a method declared twice under one path merges the shared attribute object
@@ -583,7 +671,7 @@ func (g *gen) spec(nApps, maxBlocks, nFiles, maxItems int) Spec {
 		}
 		names = append(names, n)
 		plans = append(plans, &appPlan{name: n, tables: map[string]bool{}, fields: map[string][]string{},
-			typeAnno: map[string]*[]string{}, fieldAnno: map[string]*[]string{}, epAnno: map[string]*[]string{}})
+			typeAnno: map[string]*[]string{}, fieldAnno: map[string]*[]string{}, epAnno: map[string]*[]string{}, subs: map[string]bool{}})
 	}
 	s := Spec{}
 	for i := 0; i < nFiles; i++ {
@@ -655,7 +743,13 @@ func (g *gen) spec(nApps, maxBlocks, nFiles, maxItems int) Spec {
 			blk.Attrs = g.attrs(3)
 			ni := 1 + g.r.Intn(maxItems)
 			for k := 0; k < ni; k++ {
-				switch x := g.r.Intn(12); {
+				switch x := g.r.Intn(14); {
+				case x >= 13:
+					blk.Items = append(blk.Items, g.collector(names))
+				case x >= 12:
+					if sb, ok := g.subscribe(p, names); ok {
+						blk.Items = append(blk.Items, sb)
+					}
 				case x >= 11:
 					// the mixed-in application holds no types: its types would be copied into this one
 					blk.Items = append(blk.Items, Mixin{App: "Mx"})
